@@ -16,7 +16,8 @@
 (*  event of the whole log), end [ran (came to its end, nothing escaped),  *)
 (*  escaped (exception type), status, step_status], reports (plug-in       *)
 (*  run/reports_c15.py): json [present valid features], readback [done     *)
-(*  parse_exc exc features], plain / p1 / p2 / p3 [present lines].         *)
+(*  parse_exc exc features], plain / p1 / p2 / p3 [present lines],         *)
+(*  tables [json model jtext mtext].                                       *)
 (*  Read-back: json_parser.parse(file) must not raise (parse_exc) and the   *)
 (*  returned model must carry integer line numbers (line_is_text: with     *)
 (*  text, str(feature.location) raises TypeError) -- both were defects of  *)
@@ -55,6 +56,21 @@ Died(r) ==
       ELSE LET k == CHOOSE x \in hit : \A y \in hit : x <= y IN
            {<<"C15.no_crash", "fmt=" \o r.formats[k] \o "|exc=" \o r.end.escaped>>}
 
+\* ---------------------------------------------------------------- C15.json_mirror, tables and doc-strings: those the JSON
+\* report holds for the steps of its scenario elements = those of the model after the run for the shown scenarios
+\* (tables = Seq([el, pos, headings, rows]), texts = Seq([el, pos, lines]), both in document order), cell by cell
+TablesMirror(t, a) ==
+   LET m == SelectSeq(t.model, LAMBDA x : x.el \in a.scens)
+       mt == SelectSeq(t.mtext, LAMBDA x : x.el \in a.scens)
+       where(q) == [k \in DOMAIN q |-> <<q[k].el, q[k].pos>>]
+   IN (IF where(t.json) # where(m) THEN {<<"C15.json_mirror", "steps_with_table">>}
+       ELSE IF \E k \in DOMAIN m : t.json[k].headings # m[k].headings THEN {<<"C15.json_mirror", "table_headings">>}
+       ELSE IF \E k \in DOMAIN m : t.json[k].rows # m[k].rows THEN {<<"C15.json_mirror", "table_cells">>}
+       ELSE {})
+      \cup (IF where(t.jtext) # where(mt) THEN {<<"C15.json_mirror", "steps_with_doc_string">>}
+            ELSE IF \E k \in DOMAIN mt : t.jtext[k].lines # mt[k].lines THEN {<<"C15.json_mirror", "doc_string_lines">>}
+            ELSE {})
+
 \* ---------------------------------------------------------------- a run that came to its end
 Verdicts(r) ==
    IF ~r.end.ran THEN (IF r.last_k = "fmt" THEN Died(r) ELSE {})
@@ -66,13 +82,18 @@ Verdicts(r) ==
             hasJ == rp.json.present /\ rp.json.valid
         IN Grammar(evs, X, a)
            \cup (IF rp.json.present /\ ~rp.json.valid THEN {<<"C15.json_valid", "text">>} ELSE {})
-           \cup (IF hasJ THEN JsonMirror(J, X, a) ELSE {})
+           \cup (IF hasJ THEN JsonMirror(J, X, a) \cup TablesMirror(rp.tables, a) ELSE {})
            \cup (IF hasJ /\ rp.readback.done
-                 THEN (IF rp.readback.parse_exc # ""
-                       THEN {<<"C15.json_readback", "parse:" \o rp.readback.parse_exc>>} ELSE {})
+                 THEN \* family table_unreadable (found with the decor rows): JsonParser.parse_table builds model.Table(headings,
+                      \* rows=rows) without a line, Table.__init__ computes line + index + 1 -> TypeError for ANY step table;
+                      \* as narrow as the defect: TypeError and the report holds a step table
+                      LET fam(exc) == Fam("C15.json_readback", IF exc = "TypeError" /\ rp.tables.json # <<>> THEN "table_unreadable" ELSE "none") IN
+                      (IF rp.readback.parse_exc # ""
+                       THEN {<<fam(rp.readback.parse_exc), "parse:" \o rp.readback.parse_exc>>} ELSE {})
                       \cup (IF rp.readback.line_is_text THEN {<<"C15.json_readback", "line_is_text">>} ELSE {})
-                      \cup (IF rp.readback.exc # "" THEN {<<"C15.json_readback", "parse_features:" \o rp.readback.exc>>}
-                            ELSE ReadBackClause(rp.readback.features, J))
+                      \cup (IF rp.readback.exc # "" THEN {<<fam(rp.readback.exc), "parse_features:" \o rp.readback.exc>>}
+                            ELSE ReadBackClause(rp.readback.features, J)
+                                 \cup (IF rp.readback.tables # rp.tables.json THEN {<<"C15.json_readback", "tables">>} ELSE {}))
                  ELSE {})
            \cup (IF rp.plain.present THEN PlainOnce(rp.plain.lines, X, a) ELSE {})
            \cup ProgressOnce(rp.p2.lines, rp.p3.lines, rp.p2.present, rp.p3.present, X, a)
